@@ -271,3 +271,59 @@ TWINS["C05"] = [
     TW("astar-extra-logging",
        (SEARCH, "            # Mark the current state as visited.\n            visited.add(s)", "            # Mark the current state as visited.\n            n_expanded = len(visited)\n            visited.add(s)")),
 ]
+
+# ----------------------------------------------------------------------------------- C14
+POL = C + "mdp/policy.py"
+PPOL = C + "pomdp/policy.py"
+MUTANTS["C14"] = [
+    M("revert-F9-pomdp-initial-sample", ["RNG-2"],
+      (PPOL, "initial_state = pomdp.initial_state_dist().sample(rng=rng)", "initial_state = pomdp.initial_state_dist().sample()")),
+    M("mdp-absorbing-test-on-next", ["SIM-1"],
+      (POL, "            if mdp.is_absorbing(s):\n                break\n            a = self.action_dist(s).sample(rng=rng)", "            a = self.action_dist(s).sample(rng=rng)")),
+    M("mdp-reward-args", ["SIM-3", "ARG"],
+      (POL, "r = mdp.reward(s, a, ns)", "r = mdp.reward(ns, a, s)")),
+    M("mdp-record-state-as-next", ["SIM-5"],
+      (POL, "                state=s,\n                action=a,\n                next_state=ns,", "                state=ns,\n                action=a,\n                next_state=ns,")),
+    M("mdp-advance-before-record", ["SIM-4"],
+      (POL, "            r = mdp.reward(s, a, ns)\n            traj.append(Step(", "            r = mdp.reward(s, a, ns)\n            s0 = s\n            s = ns\n            traj.append(Step(")),
+    M("mdp-no-advance", ["SIM-4"],
+      (POL, "                reward=r\n            ))\n            s = ns\n", "                reward=r\n            ))\n")),
+    M("mdp-cap-off-by-one", ["SIM-6"],
+      (POL, "        for t in range(max_steps):\n            if mdp.is_absorbing(s):", "        for t in range(max_steps + 1):\n            if mdp.is_absorbing(s):")),
+    M("mdp-terminal-record-missing", ["SIM-6"],
+      (POL, "        traj.append(Step(\n            state=s,\n        ))\n", "")),
+    M("mdp-initial-state-truthiness", ["SIM-0"],
+      (POL, "        if initial_state is None:\n            initial_state = mdp.initial_state_dist().sample(rng=rng)\n        traj = []",
+       "        if not initial_state:\n            initial_state = mdp.initial_state_dist().sample(rng=rng)\n        traj = []")),
+    M("mdp-action-from-stale-state", ["SIM-2"],
+      (POL, "            a = self.action_dist(s).sample(rng=rng)\n            ns = mdp.next_state_dist(s, a).sample(rng=rng)", "            a = self.action_dist(initial_state).sample(rng=rng)\n            ns = mdp.next_state_dist(s, a).sample(rng=rng)")),
+    M("pomdp-observation-of-previous-state", ["OBS-1"],
+      (PPOL, "o = pomdp.observation_dist(a, ns).sample(rng=rng)", "o = pomdp.observation_dist(a, s).sample(rng=rng)")),
+    M("pomdp-agentstate-not-advanced", ["OBS-1"],
+      (PPOL, "            s = ns\n            ag = nag\n", "            s = ns\n")),
+    M("pomdp-record-fields-swapped", ["SIM-5"],
+      (PPOL, "traj.append(Step(s, ag, a, ns, r, o, nag))", "traj.append(Step(s, ag, a, ns, o, r, nag))")),
+    M("pomdp-next-agentstate-args", ["OBS-1"],
+      (PPOL, "nag = self.next_agentstate(ag, a, o)", "nag = self.next_agentstate(nag if False else ag, o, a)")),
+    M("eval-returns-undiscounted", ["MC-2"],
+      (POL, "rets = Policy.calc_returns(res.reward, mdp.discount_rate)", "rets = Policy.calc_returns(res.reward, 1.0)")),
+    M("eval-initial-value-last-return", ["MC-2"],
+      (POL, "initial_values.append(rets[0])", "initial_values.append(rets[-1])")),
+    M("eval-cap-not-forwarded", ["MC-1"],
+      (POL, "res = self.run_on(mdp, rng=rng, max_steps=max_steps)", "res = self.run_on(mdp, rng=rng)")),
+    M("eval-zip-next-state", ["MC-3"],
+      (POL, "for ret, s, a in zip(rets, res.state, res.action):", "for ret, s, a in zip(rets, res.next_state, res.action):")),
+    M("eval-visits-divided-by-len", ["MC-4"],
+      (POL, "state_samples[s] += len(state_samps)/n_simulations", "state_samples[s] += len(state_samps)/len(state_value_samples)")),
+    M("accessor-next-state-reads-state", ["ACC-1"],
+      (POL, "return [s.get('next_state', None) for s in self.steps]", "return [s.get('state', None) for s in self.steps]")),
+]
+TWINS["C14"] = [
+    TW("mdp-while-form",
+       (POL, "            r = mdp.reward(s, a, ns)\n            traj.append(Step(", "            r = mdp.reward(s, a, ns)\n            step_index = t\n            traj.append(Step(")),
+    TW("eval-rename",
+       (POL, "            res = self.run_on(mdp, rng=rng, max_steps=max_steps)\n            rets = Policy.calc_returns(res.reward, mdp.discount_rate)",
+        "            res = self.run_on(mdp, max_steps=max_steps, rng=rng)\n            rets = Policy.calc_returns(res.reward, mdp.discount_rate)")),
+    TW("pomdp-comment",
+       (PPOL, "            s = ns\n            ag = nag\n", "            s = ns  # advance\n            ag = nag\n")),
+]
